@@ -4,7 +4,7 @@ Abstract view of the mocker: patches(endpoint, version, method) = the LIST store
 self._matches[endpoint][(version, method)] (absent = not patched); recorded(endpoint, version, method) = the mock
 stored under self._calls[endpoint][(version, method)]; a call of that mock is an event of the ghost trace."""
 from pyvc.api import contract
-from spec.prims import (dict_eq, class_is, ev_args, ev_callee, ev_kind, ev_kwargs, ev_value, is_absent, member, old, same, seq_same,
+from spec.prims import (ev_outcome, dict_eq, class_is, ev_args, ev_callee, ev_kind, ev_kwargs, ev_value, is_absent, member, old, same, seq_same,
                         seq_concat, tlen)
 
 from pjrpc.common.common import UNSET
@@ -43,6 +43,11 @@ def mocker_ok(m, endpoint):
     return not is_absent(ep) and not same(m._matches, m._calls)
 
 
+def unpatched(ps):
+    """no patch is queued for the method: nothing registered, or an empty queue"""
+    return is_absent(ps) or len(ps) == 0
+
+
 def first_of(xs):
     return xs[0]
 
@@ -55,7 +60,7 @@ def tail_of(xs):
 class MatchRequest:
     types = {'self': 'pjrpc.client.integrations.pytest:PjRpcMocker', 'endpoint': 'str', 'version': 'str',
              'method_name': 'str', 'params': 'opt:list|dict', 'id': 'opt:int|str'}
-    raises_only = ('Exception',)        # only what a user callback raises
+    raises_only = ('Exception',)        # what a user callback raises (ensures_on_Exception: it WAS a callback)
     result_type = '=pjrpc.common.v20:Response'
     modifies = ('$trace', '$containers')      # the nested patch / call maps and their lists; no attribute changes
     cross_check = False
@@ -64,11 +69,19 @@ class MatchRequest:
         ps = patches(self, endpoint, version, method_name)
         if not (mocker_ok(self, endpoint) and not isinstance(id, bool)):
             return False
-        return is_absent(ps) or (len(ps) > 0 and all(match_ok(m) for m in ps))
+        # the queue may be absent, EMPTY (left behind by a failed replace()) or hold well-formed patches
+        return is_absent(ps) or all(match_ok(m) for m in ps)
+
+    def ensures_on_Exception(self, endpoint, version, method_name, params, id, exc):
+        # the only exceptions are those a patch's CALLBACK raised: the last recorded event is that raising call
+        n = tlen()
+        used = old(first_of(patches(self, endpoint, version, method_name))) if not old(unpatched(patches(self, endpoint, version, method_name))) else None
+        return (used is not None and used.callback is not None and n > old(tlen()) and ev_kind(n - 1) == 'call'
+                and same(ev_callee(n - 1), used.callback) and ev_outcome(n - 1) == 'raise' and same(ev_value(n - 1), exc))
 
     def ensures_unpatched_method(self, endpoint, version, method_name, params, id, result):
         # C20: a method that is not patched on a patched endpoint gets -32601; nothing is recorded or changed
-        if not is_absent(old(patches(self, endpoint, version, method_name))):
+        if not old(unpatched(patches(self, endpoint, version, method_name))):
             return True
         return (same(result._id, id) and isinstance(result._error, MethodNotFoundError) and result._result is UNSET
                 and tlen() == old(tlen()))
@@ -79,7 +92,7 @@ class MatchRequest:
 
     # ---- the state-machine part (patched method): round-robin, once, recorded, configured reply
     def ensures_rotation(self, endpoint, version, method_name, params, id, result):
-        if is_absent(old(patches(self, endpoint, version, method_name))):
+        if old(unpatched(patches(self, endpoint, version, method_name))):
             return True
         # C20: the first patch answers; it goes to the back of the queue unless it is a `once` patch, which is dropped
         before = old(tuple(patches(self, endpoint, version, method_name)))
@@ -92,7 +105,7 @@ class MatchRequest:
         return not is_absent(now) and seq_same(now, seq_concat(tail_of(before), (used,)))
 
     def ensures_reply(self, endpoint, version, method_name, params, id, result):
-        if is_absent(old(patches(self, endpoint, version, method_name))):
+        if old(unpatched(patches(self, endpoint, version, method_name))):
             return True
         # C20: configured result / error of the patch that answered (no callback), under the request id
         used = old(first_of(patches(self, endpoint, version, method_name)))
@@ -103,7 +116,7 @@ class MatchRequest:
                 and same(result._id, id if id is not None else member(d, 'id')))
 
     def ensures_callback_reply(self, endpoint, version, method_name, params, id, result):
-        if is_absent(old(patches(self, endpoint, version, method_name))):
+        if old(unpatched(patches(self, endpoint, version, method_name))):
             return True
         # C20: with a callback the reply carries the callback value (the last event) under the request id
         used = old(first_of(patches(self, endpoint, version, method_name)))
@@ -114,7 +127,7 @@ class MatchRequest:
                 and same(ev_callee(n - 1), used.callback) and same(result._result, ev_value(n - 1)))
 
     def ensures_recorded(self, endpoint, version, method_name, params, id, result):
-        if is_absent(old(patches(self, endpoint, version, method_name))):
+        if old(unpatched(patches(self, endpoint, version, method_name))):
             return True
         # C20: the call is recorded under its endpoint and method: the mock stored there was called with the params
         rec = member(member(self._calls, endpoint), (version, method_name))
@@ -150,7 +163,7 @@ from pjrpc.client.integrations.pytest import Match
 class MockerAdd:
     types = {'self': 'pjrpc.client.integrations.pytest:PjRpcMocker', 'endpoint': 'str', 'method_name': 'str',
              'result': 'any', 'error': 'any', 'id': 'opt:int|str', 'version': 'str', 'once': 'bool',
-             'callback': 'opt:=UserCallback'}
+             'callback': 'opt:=UserMockCallback'}
     raises_only = ()
     modifies = ('$containers',)
     cross_check = False
@@ -172,7 +185,7 @@ class MockerAdd:
         return patch_is(now[len(now) - 1], endpoint, version, method_name, once, callback, id, result, error)
 
     def ensures_earlier_ones_keep_their_order(self, endpoint, method_name, result, error, id, version, once, callback):
-        if is_absent(old(patches(self, endpoint, version, method_name))):
+        if old(unpatched(patches(self, endpoint, version, method_name))):
             return True
         now = patches(self, endpoint, version, method_name)
         return seq_same(now, seq_concat(old(tuple(patches(self, endpoint, version, method_name))), (now[len(now) - 1],)))
